@@ -2,6 +2,7 @@ package builder
 
 import (
 	"fmt"
+	"go/constant"
 
 	"github.com/dave/jennifer/jen"
 	"github.com/jmattheis/goverter/config"
@@ -42,7 +43,7 @@ func (*Enum) Build(gen Generator, ctx *MethodContext, sourceID *xtype.JenID, sou
 		return nil, nil, err
 	}
 
-	sourceTargetMapping := map[interface{}]enumMapping{}
+	sourceTargetMapping := map[string]enumMapping{}
 	for _, sourceName := range sourceEnum.SortedMembers() {
 		delete(definedKeys, sourceName)
 
@@ -68,7 +69,7 @@ func (*Enum) Build(gen Generator, ctx *MethodContext, sourceID *xtype.JenID, sou
 		}
 
 		sourceValue := sourceEnum.Members[sourceName]
-		if previous, ok := sourceTargetMapping[sourceValue]; ok {
+		if previous, ok := sourceTargetMapping[enumValueKey(sourceValue)]; ok {
 			if enumTargetMismatches(previous, targetEnum, targetName) {
 				return nil, nil, enumTargetMismatchError(targetEnum, sourceName, targetName, previous, sourceValue).Lift(&Path{
 					SourceType: fmtEnumValue(sourceEnum, sourceName),
@@ -83,7 +84,7 @@ func (*Enum) Build(gen Generator, ctx *MethodContext, sourceID *xtype.JenID, sou
 					fmtEnumValue(sourceEnum, previous.Source), fmtEnumValue(targetEnum, previous.Target))))
 			}
 		} else {
-			sourceTargetMapping[sourceValue] = enumMapping{Source: sourceName, Target: targetName}
+			sourceTargetMapping[enumValueKey(sourceValue)] = enumMapping{Source: sourceName, Target: targetName}
 			cases = append(cases, jen.Case(sourceQual).Add(body))
 		}
 	}
@@ -171,7 +172,7 @@ func executeTransformers(transformers []config.ConfiguredTransformer, source, ta
 
 func enumTargetMismatches(previous enumMapping, targetEnum *xtype.Enum, targetName string) bool {
 	if !config.IsEnumAction(targetName) && !config.IsEnumAction(previous.Target) {
-		return targetEnum.Members[previous.Target] != targetEnum.Members[targetName]
+		return enumValueKey(targetEnum.Members[previous.Target]) != enumValueKey(targetEnum.Members[targetName])
 	}
 	return targetName != previous.Target
 }
@@ -197,6 +198,12 @@ func fmtEnumValue(targetEnum *xtype.Enum, targetName string) string {
 		return fmt.Sprintf("%s(action)", targetName)
 	}
 	return fmt.Sprintf("%s(%v)", targetName, targetEnum.Members[targetName])
+}
+
+// enumValueKey returns a key that is equal exactly for equal constant values,
+// big integers and floats are otherwise compared by pointer.
+func enumValueKey(v interface{}) string {
+	return constant.Make(v).ExactString()
 }
 
 type enumMapping struct {
